@@ -106,3 +106,23 @@ Proof.
   - pose proof (rel_op1 ONot (self_entry (OB b)) _ (rel_self (OB b) Wx) eq_refl) as (W & S & I). simpl in *.
     exact (conj W (conj eq_refl (conj S I))).
 Qed.
+
+(* substitution: simultaneous composition, for a map of objects of any representation *)
+Theorem obj_subst_spec o (m : list (name * obj)) o' : owf o -> (forall k g, In (k, g) m -> owf g) ->
+  exec_subst o m = Ok o' ->
+  owf o' /\
+  forall v, osem o' v = osem o (fun k => match get m k with Some g => osem g v | None => v k end).
+Proof.
+  intros Hw Hm He.
+  set (me := map (fun kg => (fst kg, self_entry (snd kg))) m).
+  assert (Hobj : map (fun ke => (fst ke, e_obj (snd ke))) me = m).
+  { unfold me. rewrite map_map. simpl. rewrite <- (map_id m) at 2. apply map_ext. intros (k, g). reflexivity. }
+  assert (Hok : me_ok me).
+  { intros k x Hin. unfold me in Hin. apply in_map_iff in Hin. destruct Hin as ((k0, g) & Heq & Hin). simpl in Heq.
+    injection Heq as <- <-. apply rel_self. exact (Hm k0 g Hin). }
+  assert (He' : exec_subst (e_obj (self_entry o)) (map (fun ke => (fst ke, e_obj (snd ke))) me) = Ok o')
+    by (rewrite Hobj; exact He).
+  pose proof (rel_subst (self_entry o) me o' (rel_self o Hw) Hok He') as (W & S & _). simpl in W, S.
+  split; [exact W|]. intros v. rewrite S. unfold subst_env. apply osem_ext. intros k.
+  rewrite get_me_spec. unfold me. rewrite (get_map_snd self_entry). destruct (get m k) as [g|]; reflexivity.
+Qed.
